@@ -916,6 +916,7 @@ type c15Event struct {
 	peer int
 	rt   *c01Route
 	pfx  int
+	pid  int // path-id of a withdrawal (ADD-PATH receive)
 }
 
 func (e c15Event) line() string {
@@ -923,7 +924,7 @@ func (e c15Event) line() string {
 	case "ann":
 		return fmt.Sprintf("ann %d %s", e.peer, e.rt.line())
 	case "wd":
-		return fmt.Sprintf("wd %d %d 0", e.peer, e.pfx)
+		return fmt.Sprintf("wd %d %d %d", e.peer, e.pfx, e.pid)
 	}
 	return fmt.Sprintf("%s %d", e.kind, e.peer)
 }
@@ -941,7 +942,7 @@ func (cw *c15World) play(e c15Event) {
 	case "ann":
 		w.recv(vp, e.rt.msg(vp))
 	case "wd":
-		w.recv(vp, bgp.NewBGPUpdateMessage([]bgp.PathNLRI{{NLRI: c01Nlri(e.pfx)}}, nil, nil))
+		w.recv(vp, bgp.NewBGPUpdateMessage([]bgp.PathNLRI{{NLRI: c01Nlri(e.pfx), ID: uint32(e.pid)}}, nil, nil))
 	}
 }
 
@@ -1180,6 +1181,20 @@ func (rn *c15Run) doReset(line string, repeat bool) {
 		}
 		cw.apply(i, paths)
 	}
+	// import side: after a soft reset in the Loc-RIB holds the import policy's image of the
+	// replayed Adj-RIB-In(s) — every accepted path of every prefix, whatever else the prefix holds
+	switch f[0] {
+	case "softin", "softboth":
+		t := 0
+		fmt.Sscan(f[1], &t)
+		rn.importOracle([]int{t}, line)
+	case "softinall", "softbothall":
+		all := make([]int, len(cw.w.peers))
+		for i := range all {
+			all[i] = i
+		}
+		rn.importOracle(all, line)
+	}
 	switch t := c15OutTarget(f); {
 	case t >= 0:
 		rn.freshExport(t, line)
@@ -1229,6 +1244,8 @@ func c15Specs(r *vRand) []vwPeerSpec {
 				sp.allowOwnAs = 1
 			}
 		}
+		// ADD-PATH receive: this peer's Adj-RIB-In holds several paths per prefix
+		sp.addPathRx = r.chance(35)
 		if i > 0 && r.chance(10) {
 			prev := specs[r.intn(i)]
 			if prev.kind == k || (prev.kind != "ebgp" && k != "ebgp") {
@@ -1240,8 +1257,33 @@ func c15Specs(r *vRand) []vwPeerSpec {
 	return specs
 }
 
+// c15AddPathShape: a route of an ADD-PATH sender. ORIGIN follows the path-id, so that two routes
+// of one neighbour never tie in the whole decision process (the hypothesis `distinct` of
+// soft_in_equals_fresh; tied routes are ordered by arrival, which a replay does not reproduce),
+// and loop-rejected entries (own AS in the AS_PATH beyond allow-own-as, own ORIGINATOR_ID) are
+// frequent, so that Adj-RIB-In destinations mix rejected and accepted paths in both orders.
+func c15AddPathShape(r *vRand, cw *c15World, vp *vwPeer, rt *c01Route) {
+	if !vp.spec.addPathRx {
+		rt.pathID = 0
+		return
+	}
+	rt.origin = uint8(rt.pathID)
+	if r.chance(30) {
+		if vp.spec.kind == "ebgp" {
+			own := []uint32{2, vp.spec.as, cw.w.as}
+			for n := int(vp.spec.allowOwnAs); n > 0; n-- {
+				own = append(own, cw.w.as)
+			}
+			rt.segs = [][]uint32{own}
+		} else {
+			a := cw.w.rid
+			rt.originator = &a
+		}
+	}
+}
+
 func c15PeerLine(i int, sp vwPeerSpec) string {
-	return fmt.Sprintf("peer %d %d %d %d %d 0 0 %d", i, c01Kind(sp.kind), sp.as, c01U32(sp.rid), c01U32(sp.addr), sp.allowOwnAs)
+	return fmt.Sprintf("peer %d %d %d %d %d 0 %d %d", i, c01Kind(sp.kind), sp.as, c01U32(sp.rid), c01U32(sp.addr), c15B(sp.addPathRx), sp.allowOwnAs)
 }
 
 // c15History runs one scenario: policies, route events, policy changes, resets; then the
@@ -1259,6 +1301,9 @@ func c15History(t *testing.T, o *vOut, r *vRand, idx int) {
 		cw.addPeer(sp)
 		rn.note("%s", c15PeerLine(i, sp))
 		o.stat("peer_kind_"+sp.kind, 1)
+		if sp.addPathRx {
+			o.stat("peer_addpath_rx", 1)
+		}
 	}
 	nP := len(specs)
 	setPol := func(d int, pol c15Pol, mode int) {
@@ -1315,7 +1360,7 @@ func c15History(t *testing.T, o *vOut, r *vRand, idx int) {
 					continue
 				}
 				rt := c01GenRoute(r, sc, vp)
-				rt.pathID = 0
+				c15AddPathShape(r, cw, vp, rt)
 				rt.comms = nil
 				for _, tg := range c15Tags {
 					if r.chance(40) {
@@ -1327,7 +1372,11 @@ func c15History(t *testing.T, o *vOut, r *vRand, idx int) {
 				if !vp.up {
 					continue
 				}
-				do(c15Event{kind: "wd", peer: i, pfx: r.intn(len(c01Prefixes))})
+				pid := 0
+				if vp.spec.addPathRx {
+					pid = r.intn(3)
+				}
+				do(c15Event{kind: "wd", peer: i, pfx: r.intn(len(c01Prefixes)), pid: pid})
 			}
 			if r.chance(15) {
 				rn.check()
@@ -1476,6 +1525,23 @@ var c15Corpus = [][]string{
 		"pol imp 1 1 0 1 0 0 0 0 0 0 0 2 0 0 0 1 2 167772160 8 16 16 167772160 8 24 24 0 0",
 		"softinall",
 		"check", "fresh"),
+	// class "several paths per prefix in the Adj-RIB-In" (ADD-PATH receive): path-id 1 is
+	// loop-rejected (own AS) and stored BEFORE path-id 2 (accepted, 65533:1); the import policy
+	// changes to reject 65533:1; soft reset in must re-evaluate path-id 2 — and in the other
+	// storage order too
+	append([]string{"world 65000 184483841",
+		"peer 0 0 65001 167772161 3232235521 0 1 0",
+		"peer 1 0 65002 167772162 3232235522 0 1 0",
+		"peer 2 0 65003 167772163 3232235523 0 0 0"},
+		"up 0", "up 1", "up 2",
+		"ann 0 0 1 1 0 0 1 0 0 0 0 0 0 1 2 2 65001 65000",
+		"ann 0 0 2 2 0 0 2 0 0 0 0 0 1 4294770689 1 2 1 65001",
+		"ann 1 1 2 3 0 0 2 0 0 0 0 0 1 4294770689 1 2 1 65002",
+		"ann 1 1 1 4 0 0 1 0 0 0 0 0 0 1 2 2 65002 65000",
+		"check",
+		"pol imp 1 1 1 4294770689 1 0 0 0 0 0 0 0 2 0 0 0 0 0 0 0",
+		"softin 0", "softin 1",
+		"check", "fresh"),
 }
 
 func TestVerifC15(t *testing.T) {
@@ -1523,7 +1589,7 @@ func c15Replay(t *testing.T, o *vOut, lines []string) *c15World {
 			rn.note("%s", line)
 			rn.note("opts 1 0 0")
 		case "peer":
-			sp := vwPeerSpec{kind: kinds[n(2)], as: uint32(n(3)), rid: ip(n(4)), addr: ip(n(5)), allowOwnAs: uint8(n(8))}
+			sp := vwPeerSpec{kind: kinds[n(2)], as: uint32(n(3)), rid: ip(n(4)), addr: ip(n(5)), addPathRx: n(7) == 1, allowOwnAs: uint8(n(8))}
 			specs = append(specs, sp)
 			cw.addPeer(sp)
 			rn.note("%s", line)
@@ -1532,7 +1598,7 @@ func c15Replay(t *testing.T, o *vOut, lines []string) *c15World {
 		case "ann":
 			play(c15Event{kind: "ann", peer: n(1), rt: c01ParseRoute(f[2:])}, line)
 		case "wd":
-			play(c15Event{kind: "wd", peer: n(1), pfx: n(2)}, line)
+			play(c15Event{kind: "wd", peer: n(1), pfx: n(2), pid: n(3)}, line)
 		case "polmode":
 			mode = n(1)
 		case "pol":
